@@ -26,7 +26,7 @@ ASSUMPTIONS = [
     "an operation the API refuses with an exception is skipped, the invariants are still checked afterwards",
     "hash collisions of Python's tuple hash are ignored",
 ]
-SMALL = ("SELECT a, b FROM t", "a + b * c", "f(x, y, z)", "SELECT a FROM t WHERE x = 1 AND y = 2", "CASE WHEN a THEN b ELSE c END", "x IN (1, 2, 3)")
+SMALL = ("SELECT foo(), a FROM t", "SELECT a FROM t WHERE f() > g(1)", "SELECT a, b FROM t", "a + b * c", "f(x, y, z)", "SELECT a FROM t WHERE x = 1 AND y = 2", "CASE WHEN a THEN b ELSE c END", "x IN (1, 2, 3)")
 MUT = tuple(o for o in edits.OPS)
 
 
@@ -58,6 +58,7 @@ def run_history(case, res=None):
     except SqlglotError:
         return []
     witness = root.copy()
+    witness_fp = F.fingerprint(witness)
     fails = []
     hashed_nodes: dict = {}
     nontrivial = False
@@ -84,6 +85,12 @@ def run_history(case, res=None):
         if popped is not None and "refused" not in note and popped.parent is not None:
             fails.append(("detached-node-keeps-parent|pop", f"step {i} {note} in {case}"))
         f = _invariants(root, i, note)
+        if not f:
+            # the copy taken before the history started is never edited: it must stay intact and unchanged
+            # (a copy that shares a list or a node with its original is corrupted by edits of the original)
+            f = [(b.replace("links|", "copy-corrupted-links|").replace("stale-hash|", "copy-stale-hash|"), d) for b, d in _invariants(witness, i, note)]
+            if not f and F.fingerprint(witness) != witness_fp:
+                f = [(f"copy-changed-by-edit-of-original|{note.split('@')[0]}", f"after step {i} ({note})")]
         if f:
             fails.extend((b, f"{d} in {case}") for b, d in f)
             break
